@@ -193,6 +193,9 @@ func formatArrayLiteral(val interface{}) string {
 						// ClickHouse normalizes -0 to UInt64_0
 						if val == 0 {
 							parts = append(parts, "UInt64_0")
+						} else if val > 1<<63 {
+							// Below the Int64 range: ClickHouse reads it as a Float64
+							parts = append(parts, fmt.Sprintf("Float64_%s", FormatFloat(-float64(val))))
 						} else {
 							parts = append(parts, fmt.Sprintf("Int64_-%d", val))
 						}
@@ -241,7 +244,11 @@ func formatNumericExpr(e ast.Expression) (string, bool) {
 				if val == 0 {
 					return "UInt64_0", true
 				}
-				return fmt.Sprintf("Int64_%d", -int64(val)), true
+				if val > 1<<63 {
+					// Below the Int64 range: ClickHouse reads it as a Float64
+					return fmt.Sprintf("Float64_%s", FormatFloat(-float64(val))), true
+				}
+				return fmt.Sprintf("Int64_-%d", val), true
 			case float64:
 				return fmt.Sprintf("Float64_%s", FormatFloat(-val)), true
 			}
